@@ -304,7 +304,8 @@ def given_weights_above_coefficient_threshold(prog: Program, rep, RID: str, clas
         init = prog.own_method(cname, "__init__")
         key = f"{cname}.__init__:given-weights-coefficient-threshold"
         uses = [m for m in prog.cls(cname).methods.values() for n in ast.walk(m.node)
-                if isinstance(n, ast.BinOp) and isinstance(n.op, ast.Mult) and any(norm(x).startswith("self.solution_weights_superset[") for x in (n.left, n.right))]
+                if isinstance(n, ast.BinOp) and isinstance(n.op, ast.Mult) and any(norm(x).startswith(("self.solution_weights_superset[", "float(self.solution_weights_superset["))
+                                                                                    for x in (n.left, n.right))]
         if not uses:
             raise AnalysisError(f"{cname}: no row multiplies a variable by an entry of solution_weights_superset")
         norms = [st for st in ast.walk(init.node) if isinstance(st, ast.Assign) and any(norm(t) == "self.solution_weights_superset" for t in st.targets) and
